@@ -102,7 +102,8 @@ class C17(Check):
     level = 'exploration'
     exhaustive = True
     rule = ('(a) exhaustive table: every multiset of 1-3 child types over {E>L>{K,I}, V, R, Concurrent[K], Concurrent[L]} '
-            'x every handler of 1-3 listed types with and without `...`, bare Concurrent and Concurrent[...]; '
+            '(the empty failure included) x every handler of 1-3 listed types with and without `...` (also after the same handler '
+            'was spelled with `...` in another position), bare Concurrent and Concurrent[...]; '
             '(b) Hypothesis: random class forests (<=7 classes, multiple inheritance), raised multisets <=5, handlers <=4, '
             'nesting <=2. Each pair is checked through isinstance, issubclass and a real try/except against the reference '
             'predicate; plus type identity/order-insensitivity (also across garbage collection) and flattened(). '
